@@ -193,3 +193,7 @@ func Run(h func()) (outcome string) {
 	h()
 	return "ok"
 }
+
+// Encoded returns the value most recently handed to encoding/json's Encoder
+// (engine only; nil natively, where the real encoder runs).
+func Encoded() any { return nil }
